@@ -159,13 +159,17 @@ class V(steps.Visitor):
 
 
 def run(tier, seed):
-    depth = 1 if tier == "quick" else 2
+    depth = 1  # thorough: depth 2 over the quick start set (below), depth 1 over the larger families
     t1, h1 = steps.start_texts(tier, "expr")
     t2, h2 = steps.start_texts(tier, "eqn")
     texts = t1[:h1] + t2[:h2] + t1[h1:] + t2[h2:]
     acc = steps.run(V, texts, depth, "any", seed, h1 + h2)
     if tier == "quick":
         acc.merge(steps.run(V, steps.small_texts("expr") + steps.small_texts("eqn"), 2, "any", seed, 0, key="small"))
+    else:
+        q1, g1 = steps.start_texts("quick", "expr")
+        q2, g2 = steps.start_texts("quick", "eqn")
+        acc.merge(steps.run(V, q1[g1:] + q2[g2:], 2, "any", seed, 0, key="quickset"))
     acc.merge(steps.run(V, steps.small_texts("expr") + steps.small_texts("eqn"), "inplace", "any", seed, 0, key="small"))
     # ... and the same two live steps without listing the nodes again in between (stale r_index / memories)
     acc.merge(steps.run(V, steps.small_texts("eqn") + steps.small_texts("expr")[::4], "inplace-stale", "any", seed, 0, key="stale"))
